@@ -198,3 +198,20 @@ def run(ck):
             else:
                 ck.violation("6", "T12-error-discipline", body, "%s:%s" % ("swallowed" if swallowed else "unwrap", cs.name), "the error of %s is %s here and this site is not in the table of deliberate discards" % (cs.describe(), "silently discarded" if swallowed else "turned into a panic"), site=body.where(cs.bb))
     ck.floor("6", "fallible calls with a registration/io error type classified", seen, 40)
+
+    # ---- clause 7: a wrapper hands back the source it was given when its registration fails (E3, shared with C18)
+    from props import C18, common
+
+    sub_ck = type(ck)(ck.prop, ck.facts, ck.config, ck.tier)
+    sub_ck.nested = True
+    if not getattr(ck, "nested", False):
+        try:
+            C18.run(sub_ck)
+        except AnchorMissing:
+            pass
+        for r in sub_ck.results:
+            if "fails]" in r["instance"] or r["instance"] == "explored":
+                r = dict(r)
+                r["key"] = r["key"].replace("C15.1/", "C15.7/", 1)
+                r["clause"] = "7"
+                ck.results.append(r)
